@@ -148,6 +148,13 @@ def make_variant(v):
                 idx = sorted(rng2.sample(range(n), rng2.randint(1, min(2, n))))
                 d["declared_levels"][b["name"]] = {"levels": idx, "where": rng2.choice(["first", "last"]),
                                                   "version": rng2.random() < 0.3}
+    if rng2.random() < 0.3:
+        # a type-specific path mapping next to the global one ("specific path mapping by type"): one file type names the
+        # state folders / name parts its own way; one-to-one like every other mapping
+        chosen.append("type_mapping")
+        b = rng2.choice(d["basetypes"])
+        ft = rng2.choice([x[0] for x in d["file_types"]])
+        d["type_state_names"] = {"%s__%s" % (b["name"], ft): dict(zip(sorted(d["states"]), ["REVIEW", "DAILIES"]))}
     d["transformations"] = chosen
     if "leaf_per_base" in chosen:
         # "a leaf key per basetype": the last basetype names its leaf key differently from the others
@@ -289,11 +296,14 @@ def emit(d, dst):
             fname = sep.join(name_parts + [ph(K["state"], state_p), ph(K["version"], vpat)])
             for ft, grp, out in d["file_types"]:
                 mid = ("/" + d["out"][b["name"]]) if out else ""
+                tsn = (d.get("type_state_names") or {}).get("%s__%s" % (b["name"], ft))
+                state_p = _alts(tsn.values()) if tsn else _alts(states.values())
+                fname = sep.join(name_parts + [ph(K["state"], state_p), ph(K["version"], vpat)])
                 if ft == "cache_file" and b["nodes"]:
                     # like the demo: the plain cache file omits the task in its name, the node file carries task and node
                     short = sep.join([p for i, p in enumerate(lvph) if b["levels"][i][0] not in ("task", "step")] +
                                      [ph(K["state"], state_p), ph(K["version"], vpat)])
-                    nodef = sep.join(name_parts + [ph(K["node"], None), ph(K["state"], state_p), ph(K["version"], vpat)])
+                    nodef = sep.join(name_parts + [ph(K["node"], None), ph(K["state"], _alts(states.values())), ph(K["version"], vpat)])
                     lines.append("    %r: %r," % ("%s__cache_node_file" % b["name"],
                                                    vdir + mid + "/" + nodef + "." + ph(LK, _alts(d["ext_groups"]["caches"]))))
                     lines.append("    %r: %r," % ("%s__%s" % (b["name"], ft),
@@ -317,6 +327,8 @@ def emit(d, dst):
             "    %r: %r," % (K["project"], {v: k for k, v in d["projects"].items()}),
             "    %r: %r," % (K["type"], {bfolder[b["name"]]: b["code"] for b in d["basetypes"]}),
             "    %r: %r," % (K["state"], {v: k for k, v in states.items()}),
+        ] + ["    %r: %r," % ((K["state"], tn), {v: k for k, v in names.items()})
+             for tn, names in sorted((d.get("type_state_names") or {}).items())] + [
             "}",
             "search_path_mapping = {}",
         ]
